@@ -171,6 +171,7 @@ class SimServer(object):
     self.connect_attempts = []       # (vt, outcome)
     self.send_delay = None           # callable(conn) -> float: client send takes time
     self.partial_writes = True       # a stalled send commits a prefix first
+    self.send_limit = None           # most bytes a single send() accepts (sendall loops)
 
   @property
   def ep(self):
@@ -352,6 +353,11 @@ class SimSocket(object):
       raise _oserr(errno.EBADF if self.closed else errno.ENOTCONN)
 
   def send(self, data, flags=0):
+    # a single send() may accept only part of the buffer (finite socket buffer): callers
+    # have to loop, as sendall() does
+    lim = getattr(self.conn.server, 'send_limit', None) if self.conn is not None else None
+    if lim and len(data) > lim:
+      data = bytes(data)[:lim]
     self.sendall(data)
     return len(data)
 
@@ -372,7 +378,8 @@ class SimSocket(object):
     # is the first send event), the caller stays blocked, the rest follows when the
     # peer drains.  If the caller is interrupted meanwhile only the prefix was written.
     data = bytes(data)
-    d = conn.server.send_delay(conn) if conn.server.send_delay else 0.0
+    sd = conn.server.send_delay
+    d = (sd(conn, len(data)) if getattr(sd, 'wants_size', False) else sd(conn)) if sd else 0.0
     parts = [data]
     if d and d > 0 and len(data) > 1 and conn.server.partial_writes:
       cut = self.net.env.case_rng.randint(1, len(data) - 1)
